@@ -12,6 +12,13 @@ package math
 //@ func pow
 //@   props C17 C11
 //@   requires isnumber(base) && isnumber(exp)
+//@   results r err
+//   C11: exact base and integer exponent give the exact power; 0 to a negative power is an error
+//@   ensures [zero-to-a-negative-power-is-an-error] istype(base, int) && base.(int) == 0 && istype(exp, int) && exp.(int) < 0 ==> err != nil
+//@   ensures [exponent-zero] istype(base, int) && istype(exp, int) && exp.(int) == 0 ==> err == nil && istype(r, int) && r.(int) == 1
+//@   ensures [exponent-one] istype(base, int) && istype(exp, int) && exp.(int) == 1 ==> err == nil && r === base
+//@   ensures [exact-integer-power] istype(base, int) && istype(exp, int) && exp.(int) >= 2 ==> err == nil && istype(r, *big.Int) && bigval(r.(*big.Int)) == ipow(base.(int), exp.(int))
+//@   ensures [negative-power-of-a-nonzero-integer-is-exact] istype(base, int) && base.(int) != 0 && istype(exp, int) && exp.(int) < 0 ==> err == nil && istype(r, *big.Rat)
 //@ func isExact
 //@   inline
 //@ func isExactInt
